@@ -47,6 +47,16 @@ type vfStreamMsg struct {
 	ID      string `json:"id"`
 	Orig    string `json:"orig"`
 	Payload string `json:"payload"`
+	// op "stream2" only: declared length through vfMsg (0 / absent or -1 = len(payload) through the real MessageValue)
+	DeclLen int64 `json:"decl_len,omitempty"`
+	UseDecl bool  `json:"use_decl,omitempty"`
+}
+
+// vfWriteObs: one WriteMsg call on the long-lived writer of op "stream2".
+type vfWriteObs struct {
+	Cls     int    `json:"cls"`     // 0 ok, 1 invalid payload size, 2 too big payload, 3 other error, 4 panic
+	Err     string `json:"err"`
+	Emitted int    `json:"emitted"` // bytes that reached the underlying buffer during this call
 }
 
 type vfStreamObs struct {
@@ -58,6 +68,86 @@ type vfStreamObs struct {
 	Held   []vfStreamMsg `json:"held"`    // the same Message objects, looked at only after the whole stream was read
 	EndCls int           `json:"end_cls"` // class of the read that ended the loop (1 = clean header error / EOF)
 	Max    uint32        `json:"max"`
+	// op "stream2"
+	Writes     []vfWriteObs `json:"writes,omitempty"`
+	WireBefore string       `json:"wire_before,omitempty"` // the wire before the final explicit Flush of the writer
+}
+
+// vfStream2: like vfStream, but the single writer is also handed messages it must refuse (payload above
+// the limit, declared length different from len(payload)) and goes on after each refusal, as a peer's
+// write loop does; the bytes reaching the connection are counted per call, the writer's bufio.Writer is
+// flushed explicitly at the end, and ONE reader reads the wire to its end.
+func vfStream2(c *vfFrameCase) (o vfStreamObs) {
+	o.Op = "stream2"
+	var buf bytes.Buffer
+	wr := NewV030ReadWriter(bytes.NewReader(nil), &buf, nil)
+	for i := range c.Msgs {
+		x := &c.Msgs[i]
+		payload, _ := hex.DecodeString(x.Payload)
+		var msg p2pcommon.Message
+		if x.UseDecl {
+			msg = &vfMsg{x.Proto, uint32(x.DeclLen), x.Ts, vfID(x.ID), vfID(x.Orig), payload}
+		} else {
+			msg = p2pcommon.NewMessageValue(p2pcommon.SubProtocol(x.Proto), vfID(x.ID), vfID(x.Orig), x.Ts, payload)
+		}
+		before := buf.Len()
+		var wo vfWriteObs
+		func() {
+			defer func() {
+				if r := recover(); r != nil {
+					wo.Cls, wo.Err = 4, fmt.Sprint("panic: ", r)
+				}
+			}()
+			if err := wr.WriteMsg(msg); err != nil {
+				wo.Err = err.Error()
+				switch {
+				case strings.Contains(wo.Err, "Invalid payload size"):
+					wo.Cls = 1
+				case strings.Contains(wo.Err, "too big payload"):
+					wo.Cls = 2
+				default:
+					wo.Cls = 3
+				}
+			}
+		}()
+		wo.Emitted = buf.Len() - before
+		o.Writes = append(o.Writes, wo)
+	}
+	o.WireBefore = hex.EncodeToString(buf.Bytes())
+	wr.w.Flush()
+	o.Wire = hex.EncodeToString(buf.Bytes())
+	var under io.Reader = bytes.NewReader(buf.Bytes())
+	if c.Chunk > 0 {
+		under = &vfChunkReader{under, c.Chunk}
+	}
+	rd := NewV030ReadWriter(bufio.NewReaderSize(under, 4096), io.Discard, nil)
+	var held []p2pcommon.Message
+	func() {
+		defer func() {
+			if r := recover(); r != nil {
+				o.Cls, o.Err, o.EndCls = 4, fmt.Sprint("panic: ", r), 4
+			}
+		}()
+		for {
+			m, err := rd.ReadMsg()
+			if err != nil {
+				switch {
+				case strings.Contains(err.Error(), "too big payload"):
+					o.EndCls = 2
+				case strings.HasPrefix(err.Error(), "failed to read paylod"):
+					o.EndCls = 3
+				default:
+					o.EndCls = 1
+				}
+				return
+			}
+			held = append(held, m)
+		}
+	}()
+	for _, m := range held {
+		o.Held = append(o.Held, vfSnap(m))
+	}
+	return
 }
 
 func vfSnap(m p2pcommon.Message) vfStreamMsg {
@@ -314,6 +404,13 @@ func TestVerifC18FrameEngine(t *testing.T) {
 			p2pcommon.MaxPayloadLength = c.Max
 		}
 		var o vfFrameObs
+		if c.Op == "stream2" {
+			so := vfStream2(&c)
+			so.Max = p2pcommon.MaxPayloadLength
+			b, _ := json.Marshal(so)
+			fmt.Fprintln(w, string(b))
+			continue
+		}
 		if c.Op == "stream" {
 			so := vfStream(&c)
 			so.Max = p2pcommon.MaxPayloadLength
